@@ -512,6 +512,8 @@ def project_queries(tr, cfg, shift=0):
             "next_tid": int(tr.get_next_track_id()) + shift, "next_lid": int(tr.get_next_lineage_id()) + shift}
 
 
+# StrokeMenu of MC.tla (3x3x3 frames, in-frame position = 9z + 3y + x)
+STROKE_MENU = [13851, 113467392, 511, 16 + 8192 + 4194304, 1, 8192, 1 + 2 + 8 + 16]
 # SwitchMasks of MC.tla
 SWITCH_MASKS_SEG = [1, 2, 4, 8, 3, 5, 6, 12, 16, 64, 128, 15, 256, 257]
 SWITCH_MASKS_NOSEG = [8, 32, 40, 1, 256, 264]
@@ -573,8 +575,8 @@ def alphabet(drv: Driver, kinds=None, wide=True):
     if K_PAINT in kinds and cfg.has_seg:
         g = tr.graph
         for t in range(T):
-            for bits in range(1, 2 ** cfg.P):
-                if cfg.max_stroke and bin(bits).count("1") > cfg.max_stroke:
+            for bits in (STROKE_MENU if cfg.max_stroke == 99 else range(1, 2 ** cfg.P)):
+                if 0 < cfg.max_stroke < 99 and bin(bits).count("1") > cfg.max_stroke:
                     continue
                 for v in range(0, N + 1):
                     # a stroke with an existing label stays in that label's frame (C07 domain)
